@@ -119,13 +119,15 @@ Definition isValidSCTE35Interval (perMinute : Z) : bool :=
 
 Definition ad_seconds (perMinute : Z) : Z := if perMinute =? 1 then 20 else 10.
 Definition announce_lead : Z := 7.
+Definition minute_s : Z := 60.          (* segStart % (60 * timescale) *)
+Definition pts_clock : Z := 90000.      (* spliceTime*90000/timescale *)
 
 Definition scte_err : string := "scte35 per minute must be 1, 2, or 3".
 
 Definition params_for (spliceTime adDuration timescale : Z) : siparams :=
   let emsgID := spliceTime / timescale in
-  {| p_pts := (u64 (spliceTime * 90000) / timescale) mod two33;
-     p_dur := u64 (adDuration * 90000) / timescale;
+  {| p_pts := (u64 (spliceTime * pts_clock) / timescale) mod two33;
+     p_dur := u64 (adDuration * pts_clock) / timescale;
      p_event := u32 emsgID;
      p_tier := 4095; p_upid := 0; p_avail := 0; p_avails := 0;
      p_cancel := false; p_out := true; p_immediate := false; p_auto := true |}.
@@ -135,7 +137,7 @@ Definition createEmsgAhead (segStart segEnd timescale perMinute : Z) : res (opti
   match splice_offsets perMinute with
   | None => Err scte_err
   | Some offs =>
-    let m60 := u64 (60 * timescale) in
+    let m60 := u64 (minute_s * timescale) in
     if m60 =? 0 then Panic "scte35.CreateEmsgAhead:integer divide by zero" else
     let modMinute := segStart mod m60 in
     let minuteStart := segStart - modMinute in
@@ -263,3 +265,21 @@ Definition events (timescale perMinute : Z) (segs : list (Z * Z)) : list Z :=
 (** the events whose splice time lies in wall-clock minute [m] *)
 Definition events_in_minute (timescale perMinute m : Z) (segs : list (Z * Z)) : list Z :=
   filter (fun sigma => sigma / (60 * timescale) =? m) (events timescale perMinute segs).
+
+(** the parameters a decoded section stands for, and the range in which SpliceInsertParams are
+    representable in the section (33-bit times, 12-bit tier; livesim2 always sends a duration
+    and never an immediate splice) *)
+Definition params_of_view (v : section_view) : siparams :=
+  {| p_pts := v_pts_time v; p_dur := v_break_dur v; p_event := v_event v; p_tier := v_tier v;
+     p_upid := v_upid v; p_avail := v_avail v; p_avails := v_avails v; p_cancel := v_cancel v;
+     p_out := v_out v; p_immediate := v_immediate v; p_auto := v_auto v |}.
+
+Definition params_in_range (p : siparams) : Prop :=
+  0 <= p_pts p < two33 /\ 0 < p_dur p < two33 /\ 0 <= p_event p < two32 /\ 0 <= p_tier p < 4096 /\
+  0 <= p_upid p < 65536 /\ 0 <= p_avail p < 256 /\ 0 <= p_avails p < 256 /\ p_immediate p = false.
+
+(** the emsg CreateEmsgAhead builds for the splice time sigma (proved in ScteProofs.carried_emsg) *)
+Definition emsg_of (ts n sigma : Z) : emsg :=
+  let adDuration := u64 (ad_seconds n * ts) in
+  {| e_timescale := u32 ts; e_pt := sigma; e_dur := u32 adDuration; e_id := u32 (sigma / ts);
+     e_data := createSpliceInsertPayload (params_for sigma adDuration ts) |}.
